@@ -232,6 +232,10 @@ def run(c, prog, ctx):
     want = ("std::result::Result::Ok{tuple{confidential::Asset::new_confidential(arg3, confidential::Asset::explicit(arg1), arg4), "
             "secp256k1_zkp::zkp::surjection_proof::with_rand::new(arg3, arg2, issuance::AssetId::into_tag(confidential::Asset::explicit(arg1)), %s::into_inner(arg4), %s)}}" % (ABF, DOM))
     c.inst("R3.asset-blind", "asset commitment and surjection proof use the same asset id and the same asset blinder, over the given domain in order", r == [want], "returns %s" % [x[:400] for x in r], AS.f.where(), AS.f.path)
+    # the domain handed to the prover is the caller's list, element for element: nothing may mutate the collected vector
+    # (the verifier rebuilds the domain from the transaction; positions must correspond)
+    muts = [(s_[1], [sh(a) for a in s_[2]][:1]) for cx, s_ in AS.flat if s_[0] == "do" and not s_[1].endswith("SurjectionProof>::new") and "surjection_proof" not in s_[1]]
+    c.inst("R3.domain-unmodified", "no in-place change (dedup, sort, retain, truncate, ...) of the surjection domain between collecting and proving", not muts, "mutating calls %s" % muts, AS.f.where(), AS.f.path)
     # ------------------------------------------------------------- R4 range proof public data
     VS = Fn(prog, "blind::<impl confidential::Value>::blind_with_shared_secret")
     GEN = "%s::commitment(arg6, arg2)" % RPM
